@@ -14,6 +14,36 @@ fn parse_tier(s: &str) -> Tier {
     }
 }
 
+/// Caps the address space of this process, so that a case which allocates without bound ends
+/// in an allocation failure (abort) of this worker, which the parent triages like any other
+/// death, instead of exhausting the machine. Not for the sanitizer / interpreter layers,
+/// which reserve huge address ranges themselves.
+#[cfg(all(unix, not(miri)))]
+fn cap_memory(layer: &str) {
+    if layer != "primary" && layer != "plain" {
+        return;
+    }
+    let mb: u64 = std::env::var("VERIF_MEM_LIMIT_MB").ok().and_then(|v| v.parse().ok()).unwrap_or(4096);
+    if mb == 0 {
+        return;
+    }
+    #[repr(C)]
+    struct RLimit {
+        cur: u64,
+        max: u64,
+    }
+    extern "C" {
+        fn setrlimit(resource: i32, rlim: *const RLimit) -> i32;
+    }
+    const RLIMIT_AS: i32 = 9;
+    let l = RLimit { cur: mb << 20, max: mb << 20 };
+    unsafe {
+        setrlimit(RLIMIT_AS, &l);
+    }
+}
+#[cfg(not(all(unix, not(miri))))]
+fn cap_memory(_layer: &str) {}
+
 fn main() {
     let args: Vec<String> = std::env::args().collect();
     let specs = monitors::registry();
@@ -34,6 +64,7 @@ fn main() {
         c.layer = args[8].clone();
         c.scale_pct = args[9].parse().unwrap_or(100);
         c.known_active = runner::known_active_for(id);
+        cap_memory(&c.layer);
         if c.layer != "primary" {
             c.disable_distinct_tracking();
         }
@@ -69,6 +100,7 @@ fn main() {
     }
     if args.len() >= 3 && args[1] == "replay" {
         ctx::install_panic_hook();
+        cap_memory("primary");
         std::process::exit(runner::run_replay(&specs, &args[2]));
     }
     if args.len() >= 2 && args[1] == "list" {
